@@ -32,10 +32,11 @@ type State struct {
 	Heap   map[string]*Term
 	Locals map[*ssa.Alloc]Val
 	Clk    *Term
+	Epoch  *Term // changes at every heap write: equal epochs imply equal heaps
 }
 
 func (s *State) clone() *State {
-	n := &State{Reach: s.Reach, Clk: s.Clk, Heap: make(map[string]*Term, len(s.Heap)), Locals: make(map[*ssa.Alloc]Val, len(s.Locals))}
+	n := &State{Reach: s.Reach, Clk: s.Clk, Epoch: s.Epoch, Heap: make(map[string]*Term, len(s.Heap)), Locals: make(map[*ssa.Alloc]Val, len(s.Locals))}
 	for k, v := range s.Heap {
 		n.Heap[k] = v
 	}
@@ -244,6 +245,7 @@ func (g *Gen) heapSet(st *State, name string, s *Sort, v *Term) {
 		g.uniOrder = append(g.uniOrder, name)
 	}
 	st.Heap[name] = v
+	st.Epoch = g.fresh("epoch", SInt)
 	if g.curBlock != nil {
 		m := g.writes[g.curBlock]
 		if m == nil {
@@ -277,6 +279,7 @@ func (g *Gen) havocAll(st *State, why string) {
 		}
 		st.Heap[n] = g.fresh("hv:"+n, g.universe[n])
 	}
+	st.Epoch = g.fresh("epoch", SInt)
 	g.bumpClock(st)
 }
 
@@ -346,6 +349,15 @@ func (g *Gen) load(st *State, a *Addr, ty types.Type) Val {
 	g.wfVal(st, v)
 	if a.Root == RGlobal && len(a.Path) == 0 && !g.P.MutableGlobals[a.Glob] && v.K == VScalar && isErrorType(ty) {
 		g.sentinel(v.T)
+	}
+	if a.Root == RGlobal && len(a.Path) == 0 && !g.P.MutableGlobals[a.Glob] && v.K == VScalar {
+		// a package-level variable that is only assigned a constant by its initialiser
+		if c, ok := g.P.GlobalInit[a.Glob]; ok {
+			cv := g.constVal(c)
+			if cv.K == VScalar && cv.T != nil && cv.T.S == v.T.S {
+				g.assume(Eq(v.T, cv.T))
+			}
+		}
 	}
 	return v
 }
@@ -653,7 +665,7 @@ func (g *Gen) collectDebug() {
 }
 
 func (g *Gen) initState() *State {
-	st := &State{Reach: True, Heap: map[string]*Term{}, Locals: map[*ssa.Alloc]Val{}, Clk: Const(g.prefix+"!clk0", SInt)}
+	st := &State{Reach: True, Heap: map[string]*Term{}, Locals: map[*ssa.Alloc]Val{}, Clk: Const(g.prefix+"!clk0", SInt), Epoch: Const(g.prefix+"!epoch0", SInt)}
 	g.assume(Le(IntLit(0), st.Clk))
 	for _, n := range g.uniOrder {
 		st.Heap[n] = Const("H0:"+n, g.universe[n])
@@ -790,6 +802,7 @@ func (g *Gen) mergeStates(b *ssa.BasicBlock, preds []*ssa.BasicBlock) *State {
 		st.Heap[n] = mergeTerm("H:"+n, s, func(x *State) *Term { return g.heapGet(x, n, s) })
 	}
 	st.Clk = mergeTerm("clk", SInt, func(x *State) *Term { return x.Clk })
+	st.Epoch = mergeTerm("epoch", SInt, func(x *State) *Term { return x.Epoch })
 	allocs := map[*ssa.Alloc]bool{}
 	for _, i := range ins {
 		for a := range i.st.Locals {
@@ -988,6 +1001,7 @@ func (g *Gen) loopHead(b *ssa.BasicBlock, l *Loop, st *State, fwd []*ssa.BasicBl
 		hs.Locals[a] = v
 		g.wfVal(hs, v)
 	}
+	hs.Epoch = Const(fmt.Sprintf("%s!epoch@loop%d", g.prefix, l.Ordinal), SInt)
 	clk := Const(fmt.Sprintf("%s!clk@loop%d", g.prefix, l.Ordinal), SInt)
 	g.assume(Le(st.Clk, clk))
 	hs.Clk = clk
